@@ -147,6 +147,9 @@ def run(ctx, rep):
     loopstate.rule(ctx, rep, "C10", ['validation::set_up_oneway_interface', 'validation::check_methods'])
     import pipeline
     pipeline.rule(ctx, rep, "C10", ['resolve_types', 'set_up_oneway_interface', 'check_methods'])
+    rep.rule("LX", "lexical agreement (C03 A10, re-evaluated here): the property quantifies over documents - token classes, their priorities, the keyword rule, comments and white space must be the reference ones (a changed comment / number / keyword regex silently drops or merges members)")
+    import lexical
+    lexical.rules(ctx, rep, "C10", {"trivia", "classes", "priority", "keywords", "tokenizer"})
     rep.assumptions += ["TB-1 rustc MIR", "TB-4 tabulator", "iterator chain modelled for one generic element: iter_mut/filter_map/for_each visit every element once in order (std)"]
     import common_g
     n, _ = common_g.emit(ctx, rep, "C10", {"oneway"}, "T4")
